@@ -218,7 +218,7 @@ theorem globalRound_safe {enc : Encoder} (henc : EncLen enc) {env : Env} (hb : e
 theorem good_clearGlobal {st : St} (h : Good false st) : Good false { st with globalTasks := [] } ∧
     Ext st { st with globalTasks := [] } :=
   ⟨⟨h.inv, fun t m => (by simp at m), h.lt, h.gtab, h.ltab, fun e => (by cases e),
-    fun _ => ⟨(h.top rfl).1, (h.top rfl).2.1, fun t m => by simp at m⟩⟩, fun _ x => x, fun t m => by simp at m⟩
+    fun _ => ⟨(h.top rfl).1, (h.top rfl).2.1, fun t m => by simp at m⟩⟩, fun _ x => x, fun t m => (by simp at m), Traced.refl st⟩
 
 theorem globalLoop_safe {enc : Encoder} (henc : EncLen enc) {env : Env} (hb : env.paths.isEmpty = true) :
     ∀ (n : Nat) (ts : List Task) (st : St), Good false st → (∀ t ∈ ts, TaskOk st.seg.pending t ∧ t.notCopy = true) →
@@ -331,7 +331,7 @@ theorem assembleFile_safe {enc : Encoder} (henc : EncLen enc) (fs : Bytes → Op
         cases eq
         simp only [leaveFile]
         refine ⟨⟨g4.inv, fun t' m => (h.gt t' m).mono e4.1, fun l e t' m => (by cases e; exact g4.gt t' m),
-          h.gtab, fun l e => (by cases e; exact g4.gtab), fun _ => ⟨rfl, rfl⟩, fun e => by cases e⟩, e4.1, fun t' m => .inl m⟩
+          h.gtab, fun l e => (by cases e; exact g4.gtab), fun _ => ⟨rfl, rfl⟩, fun e => by cases e⟩, e4.1, fun t' m => .inl m, e4.2.2⟩
       · rename_i r hf
         exact ⟨fun e => by cases e; exact fb.1 hf, fun st' x eq => by cases eq⟩
     | false =>
@@ -348,8 +348,8 @@ theorem assembleFile_safe {enc : Encoder} (henc : EncLen enc) (fs : Bytes → Op
         cases eq
         simp only [leaveFile]
         refine ⟨⟨g4.inv, g4.gt, fun l e => (by cases e), g4.gtab, fun l e => (by cases e), fun e => (by cases e),
-          fun _ => ⟨rfl, rfl, fun t' m => ?_⟩⟩, e4.1, e4.2⟩
-        rcases e4.2 t' m with m' | m'
+          fun _ => ⟨rfl, rfl, fun t' m => ?_⟩⟩, e4.1, e4.2.1, e4.2.2⟩
+        rcases e4.2.1 t' m with m' | m'
         · exact (h.top rfl).2.2 t' m'
         · exact m'
       · rename_i r hf
